@@ -6,6 +6,6 @@ PROFILE = {'p_write': 0.6}
 
 
 def main(tier, seed):
-    return dbtie.db_check("C06", tier, seed, PROFILE, 320, 8000, "Prop_C06",
+    return dbtie.db_check("C06", tier, seed, PROFILE, 500, 8000, "Prop_C06",
                           "user callables and re are an environment the theorems quantify over; the tie instantiates them with the twin table")
 
